@@ -33,6 +33,7 @@ import (
 	"github.com/scionproto/scion/pkg/slayers/path"
 	"github.com/scionproto/scion/pkg/slayers/path/empty"
 	"github.com/scionproto/scion/pkg/slayers/path/onehop"
+	"golang.org/x/sys/unix"
 
 	"example.com/scion-time/core/server"
 	"example.com/scion-time/core/timebase"
@@ -357,6 +358,27 @@ func srcSock(cfg childCfg, src, ident int) (*net.UDPConn, error) {
 	return c, nil
 }
 
+// sendFromPort0 sends data as a UDP datagram from (src, port 0) to dst through a raw socket: a
+// datagram the listener receives like any other and cannot answer (sendmsg to port 0: EINVAL).
+func sendFromPort0(src net.IP, dst *net.UDPAddr, data []byte) error {
+	fd, err := unix.Socket(unix.AF_INET, unix.SOCK_RAW, unix.IPPROTO_UDP)
+	if err != nil {
+		return err
+	}
+	defer unix.Close(fd)
+	var sa, da unix.SockaddrInet4
+	copy(sa.Addr[:], src.To4())
+	copy(da.Addr[:], dst.IP.To4())
+	if err := unix.Bind(fd, &sa); err != nil {
+		return err
+	}
+	b := make([]byte, 8+len(data))
+	b[2], b[3] = byte(dst.Port>>8), byte(dst.Port)
+	b[4], b[5] = byte(len(b)>>8), byte(len(b))
+	copy(b[8:], data) // checksum 0: none (IPv4)
+	return unix.Sendto(fd, b, 0, &da)
+}
+
 func drain(c *net.UDPConn) {
 	buf := make([]byte, 4096)
 	for {
@@ -584,7 +606,7 @@ func parseEvents(s string) ([]event, bool) {
 				}
 				e.ref = j
 			}
-		case 'e', 't', 'f', 'x', 'r':
+		case 'e', 't', 'f', 'x', 'r', 'w':
 			v, err := strconv.Atoi(rest)
 			if err != nil || v < 0 || strconv.Itoa(v) != rest {
 				return nil, false
@@ -666,14 +688,14 @@ func execHist(toks []string) string {
 		if (e.letter == 'e' || e.letter == 't' || e.letter == 'f' || e.letter == 'r') && l != "scion" {
 			return "bad-op"
 		}
-		if e.letter == 'r' && e.src >= 8 {
+		if (e.letter == 'r' || e.letter == 'w') && e.src >= 8 {
 			return "bad-op"
 		}
 		if (e.letter == 'f' && e.src < 8) || (l == "ip" && e.src >= 8) {
 			return "bad-op" // packets are forwarded by the sockets on the end-host port only
 		}
 		if e.ref >= 0 {
-			if e.ref >= j || (evs[e.ref].letter != 'n' && evs[e.ref].letter != 'q' && evs[e.ref].letter != 'r') {
+			if e.ref >= j || (evs[e.ref].letter != 'n' && evs[e.ref].letter != 'q' && evs[e.ref].letter != 'r' && evs[e.ref].letter != 'w') {
 				return "bad-op"
 			}
 		}
@@ -776,7 +798,7 @@ func runHist(cfg childCfg, idents []int, evs []event) *histObs {
 				if !r.answered {
 					org = ntp.Time64{Seconds: 1, Fraction: uint32(j)}
 				}
-				if evs[e.ref].letter == 'r' && r.phantom != nil {
+				if (evs[e.ref].letter == 'r' || evs[e.ref].letter == 'w') && r.phantom != nil {
 					// nothing was sent for that exchange; its receive timestamp as the store has it
 					org = r.phantom.rx
 					if e.letter == 'n' {
@@ -799,6 +821,17 @@ func runHist(cfg childCfg, idents []int, evs []event) *histObs {
 			var pld []byte
 			o.req, pld = ntpReq(ntp.Time64{}, tx, tx)
 			data = scionUDPIrreversible(cfg, ident, sport, scionPort, netip.MustParseAddr(cfg.ip()), pld)
+		case 'w':
+			// a valid request that arrives from UDP source port 0 (raw socket): the listener handles and
+			// records it, the write of the reply to port 0 fails (EINVAL)
+			tx := ntp.Time64FromTime(time.Now())
+			var pld []byte
+			o.req, pld = ntpReq(ntp.Time64{}, tx, tx)
+			if cfg.kind == "ip" {
+				data = pld
+			} else {
+				data = scionUDP(cfg, ident, sport, scionPort, netip.MustParseAddr(cfg.ip()), pld)
+			}
 		case 'e':
 			data = scionSCMP(cfg, ident, false, j)
 		case 't':
@@ -811,12 +844,17 @@ func runHist(cfg childCfg, idents []int, evs []event) *histObs {
 			data = []byte{0x23, byte(j)} // too short for either listener
 		}
 		o.sendT = time.Now()
-		if _, err := sock.WriteToUDP(data, dst); err != nil {
+		if e.letter == 'w' {
+			if err := sendFromPort0(sock.LocalAddr().(*net.UDPAddr).IP, dst, data); err != nil {
+				h.sandbox = "raw write: " + err.Error()
+				return h
+			}
+		} else if _, err := sock.WriteToUDP(data, dst); err != nil {
 			h.sandbox = "write: " + err.Error()
 			return h
 		}
 		switch e.letter {
-		case 'r':
+		case 'r', 'w':
 			// nothing comes back (the path cannot be reversed); what does the store say?
 			sock.SetReadDeadline(time.Now().Add(3 * time.Millisecond))
 			if _, _, err := sock.ReadFromUDP(buf); err == nil {
@@ -851,8 +889,8 @@ func runHist(cfg childCfg, idents []int, evs []event) *histObs {
 			}
 			if o.phantom != nil {
 				h.bad++
-				h.badWhy = append(h.badWhy, fmt.Sprintf("event %d: unsent-exchange-on-record: the request got no reply (irreversible path), yet the store keeps an exchange for client %s with receive timestamp %v and transmit time %v (rx%+d ns): a transmit time of a reply that was never sent",
-					j, key, ntp.TimeFromTime64(o.phantom.rx, o.sendT), ntp.TimeFromTime64(o.phantom.tx, o.sendT),
+				h.badWhy = append(h.badWhy, fmt.Sprintf("event %d: unsent-exchange-on-record: the request got no reply (%s), yet the store keeps an exchange for client %s with receive timestamp %v and transmit time %v (rx%+d ns): a transmit time of a reply that was never sent",
+					j, map[byte]string{'r': "irreversible path", 'w': "request from UDP source port 0: the write of the reply fails"}[e.letter], key, ntp.TimeFromTime64(o.phantom.rx, o.sendT), ntp.TimeFromTime64(o.phantom.tx, o.sendT),
 					ntp.TimeFromTime64(o.phantom.tx, o.sendT).Sub(ntp.TimeFromTime64(o.phantom.rx, o.sendT)).Nanoseconds()))
 			}
 			continue
@@ -982,7 +1020,7 @@ func (h *histObs) checkStore() {
 			return
 		}
 		for j, e := range h.evs {
-			if e.letter != 'n' && e.letter != 'q' && e.letter != 'r' {
+			if e.letter != 'n' && e.letter != 'q' && e.letter != 'r' && e.letter != 'w' {
 				continue
 			}
 			key := clientKey(cfg, h.idents[e.src])
@@ -1057,7 +1095,7 @@ func (h *histObs) checkReply(j int) {
 	// datagram: taken after the software reading that reply carried, before it arrived here
 	e := h.evs[j]
 	r := &h.obs[e.ref]
-	if h.evs[e.ref].letter == 'r' {
+	if h.evs[e.ref].letter == 'r' || h.evs[e.ref].letter == 'w' {
 		tx := ntp.TimeFromTime64(o.resp.TransmitTime, o.arrT)
 		fail(fmt.Sprintf("unsent-exchange-served: interleaved reply quotes event %d, a request for which no reply was ever sent: served transmit time %v is the transmit time of no datagram",
 			e.ref, tx))
